@@ -146,6 +146,12 @@ func (s *Store) literals(g *Term) ([]literal, bool) {
 }
 
 func objAlloc(sum *Summary, obj *Term) *Event {
+	// a field embedded by value lives and dies with the object that contains it
+	if obj != nil && obj.Op == "addr" && len(obj.Args) == 2 {
+		if _, isField := obj.Args[1].StrVal(); isField {
+			obj = obj.Args[0]
+		}
+	}
 	if obj == nil || obj.K != KSym {
 		return nil
 	}
